@@ -134,7 +134,7 @@ PROP = Prop(
           "easy<=60) thorough for each class, equally spaced scores. Every case is non-trivial "
           "(all carry extreme targets) unless both classes are empty; distinct = distinct case JSON."),
     clauses=[
-        Clause("extremes", check, strategy=_cases(), quick=250, thorough=1200, quick_shards=4,
+        Clause("extremes", check, strategy=_cases(), quick=250, thorough=4800, quick_shards=4,
                min_nontrivial=100, doc="random score sets, extreme targets, all methods"),
         Clause("sizes", check_sizes, kind="enum", cases=_enum, quick_shards=4, shards=16,
                min_nontrivial=100,
